@@ -3,8 +3,9 @@ CONSTANTS
   Files <- MCFiles
   Listeners <- MCListeners
   Reg <- MCReg
-  MaxWrites = 3
+  MaxWrites = 1
   MaxErrors = 1
   Variant = "per_event"
-INVARIANTS TypeOK LoadedWasWritten NotifiedOfLast
+INVARIANTS TypeOK
+PROPERTIES Drains Quiesces
 CHECK_DEADLOCK FALSE
